@@ -406,6 +406,9 @@ pub struct Printer<'a> {
 }
 
 impl<'a> Printer<'a> {
+    pub fn new(p: &'a Program) -> Self {
+        Printer { p, out: String::new(), ind: 0 }
+    }
     fn line(&mut self, s: &str) {
         for _ in 0..self.ind {
             self.out.push_str("    ");
